@@ -437,7 +437,7 @@ fn eq_hash_sweep(ctx: &mut Ctx, maxlen: usize) {
 }
 
 pub fn run_c20(ctx: &mut Ctx) {
-    let n = nsel(ctx, 2, 3, 3, 6, 10);
+    let n = nsel(ctx, 2, 3, 3, 6, 14);
     let mut dims: Vec<usize> = (0..=n).collect();
     if ctx.scale == Scale::Native {
         dims.extend([31, 32, 33, 64, 100]);
@@ -482,7 +482,7 @@ pub fn run_c20(ctx: &mut Ctx) {
             }
         }
     }
-    let nv = nsel(ctx, 2, 3, 3, 5, 7);
+    let nv = nsel(ctx, 2, 3, 3, 5, 8);
     let mut conv_shapes = shapes(nv);
     if ctx.scale == Scale::Native {
         conv_shapes.extend([(9, 7), (33, 2), (2, 33), (40, 30)]);
@@ -501,7 +501,7 @@ pub fn run_c20(ctx: &mut Ctx) {
             return;
         }
     }
-    let ml = nsel(ctx, 3, 4, 4, 6, 8);
+    let ml = nsel(ctx, 3, 4, 4, 6, 9);
     if ctx.case(|| format!("C20 eq/hash sweep up to {} cells", ml)) {
         eq_hash_sweep(ctx, ml);
     }
